@@ -47,7 +47,7 @@ Proof. exact send_receive_only. Qed.
 Print Assumptions C06_receive_only.
 
 Example C06_example :
-  send_txn (mkICfg true true false false false)
+  send_txn (mkICfg true true false false false [])
     (mkEnv [([95;115;121;110;99;95;120], mkDbi 0 [([107], [1])]);
             ([97], mkDbi 0 [([107], be64 5 ++ be64 9 ++ [0;1;0;0;0;0;0;0])])] 9) 1000 0
   = Ok (mkEnv [([95;115;121;110;99;95;120], mkDbi 0 [([107], [1])]);
